@@ -233,3 +233,45 @@ func Harness_C18_CompactStep() {
 	}
 	verif.Reached()
 }
+
+// Harness_C18_RunInstalledInKeyOrder: a compaction hands its output run (2..3 tables in key
+// order, whose ages - smallest sequence numbers - are in an arbitrary order) to a level below
+// level 0 through a change set, next to an optional older run: the level stays a sorted run,
+// and every key of the run is found by Get and by a prefix scan.
+func Harness_C18_RunInstalledInKeyOrder() {
+	verif.Abstract("bloom.Filter")
+	fs := storage.NewMemoryFilesystem()
+	tw := NewTableWriter(fs, 0)
+	n := 2 + verif.Choose("tables", 2)
+	keys := [][]byte{[]byte("a"), []byte("c"), []byte("e")}[:n]
+	// the age order of the tables: a permutation chosen by shape
+	perms := [][]int{{0, 1, 2}, {2, 1, 0}, {1, 0, 2}, {0, 2, 1}, {2, 0, 1}, {1, 2, 0}}
+	perm := perms[verif.Choose("age-order", len(perms))]
+	seqOf := make([]uint64, 3)
+	for age, ti := range perm {
+		seqOf[ti] = uint64(10 + age)
+	}
+	tables := make([]*Table, n)
+	vals := make([][]byte, n)
+	for i := 0; i < n; i++ {
+		vals[i] = []byte{verif.Byte("v")}
+		e := &Entry{key: keys[i], seqNum: seqOf[i], value: vals[i]}
+		t, err := tw.Write(func(yield func(kv.Entry) bool) { yield(e) })
+		if err != nil {
+			panic(err)
+		}
+		tables[i] = t
+	}
+	level := 1 + verif.Choose("level", 2)
+	ll := NewEmptyLevelList(4)
+	cs := &ChangeSet{}
+	cs.AddTables(level, tables...)
+	ll = ll.NewWithChangeSet(cs)
+	verifLayoutValid(ll, "installed")
+	for i, k := range keys {
+		got := verifLookup(ll, k)
+		verif.Assert(got.found && !got.del && bytes.Equal(got.val, vals[i]), "key-of-the-installed-run-found")
+	}
+	verif.Assert(len(verifScanAll(ll)) == n, "scan-yields-the-whole-run")
+	verif.Reached()
+}
